@@ -336,4 +336,75 @@ Proof.
     rewrite vconj_gather, (dot_comm x), (dot_gather_scatter n) by (rewrite ?vconj_len; auto).
     apply dot_comm.
 Qed.
+
+(* ---------------- ComponentProjection / ComponentProjectionAdjoint ---------------- *)
+Lemma pweights_app (pl pr : vec) (l r : list vec) : length pl = length l ->
+  pweights (pl ++ pr) (l ++ r) = pweights pl l ++ pweights pr r.
+Proof.
+  revert l; induction pl as [|p pl IH]; intros [|w l] Hl; cbn in Hl; try discriminate; [reflexivity|].
+  cbn [app pweights]. rewrite IH by lia. apply app_assoc.
+Qed.
+Lemma pweights_len (pl : vec) (l : list vec) : length pl = length l ->
+  length (pweights pl l) = length (concat l).
+Proof.
+  revert l; induction pl as [|p pl IH]; intros [|w l] Hl; cbn in Hl; try discriminate; [reflexivity|].
+  cbn [pweights concat]. rewrite !app_length, map_length, IH by lia. reflexivity.
+Qed.
+Lemma map_one (w : vec) : map (nmul none_) w = w.
+Proof. rewrite <- (map_id w) at 2. apply map_ext. intros; ring. Qed.
+
+Lemma proj_split (ws : list vec) (pw : vec) i : (i < length ws)%nat -> length pw = length ws ->
+  exists L R PL PR, ws = L ++ nth i ws [] :: R /\ pw = PL ++ nth i pw nzero :: PR /\
+    length L = i /\ length PL = i.
+Proof.
+  intros Hi Hl.
+  destruct (nth_split ws [] Hi) as (L & R & E1 & E2).
+  assert (Hi' : (i < length pw)%nat) by lia.
+  destruct (nth_split pw nzero Hi') as (PL & PR & E3 & E4).
+  exists L, R, PL, PR. auto.
+Qed.
+
+Lemma leaf_ok_proj (ws : list vec) (pw : vec) i : (i < length ws)%nat -> length pw = length ws ->
+  nth i pw nzero = none_ -> leaf_ok (LProj ws pw i).
+Proof.
+  intros Hi Hl Hp. split; [|split; reflexivity]. cbn [leaf_dom leaf_ran leaf_adjoint eval].
+  destruct (proj_split ws pw i Hi Hl) as (L & R & PL & PR & E1 & E2 & HL & HPL).
+  set (wi := nth i ws []) in *. rewrite Hp in E2.
+  assert (HR : length PR = length R).
+  { rewrite E1, E2, !app_length in Hl. cbn [length] in Hl. lia. }
+  assert (Eoff : offset ws i = length (concat L)).
+  { unfold offset. rewrite E1, firstn_app, HL, Nat.sub_diag, firstn_O, app_nil_r.
+    rewrite <- HL, firstn_all. reflexivity. }
+  assert (Etot : total ws = (length (concat L) + (length wi + length (concat R)))%nat).
+  { unfold total. rewrite E1, concat_app. cbn [concat]. rewrite !app_length. reflexivity. }
+  assert (Ew : pweights pw ws = pweights PL L ++ (wi ++ pweights PR R)).
+  { rewrite E1 at 1. rewrite E2. rewrite pweights_app by lia. cbn [pweights]. rewrite map_one. reflexivity. }
+  assert (Hlen : length (pweights pw ws) = total ws).
+  { rewrite pweights_len by assumption. reflexivity. }
+  split; [|split].
+  - intros x Hx. cbn [eval_leaf]. fold wi. rewrite Hlen, Etot in Hx.
+    rewrite firstn_length, skipn_length, Eoff. lia.
+  - intros y Hy. cbn [eval_leaf]. fold wi. rewrite !app_length, !zeros_len, Hlen, Eoff, Etot. lia.
+  - intros x y Hx Hy. cbn [eval_leaf]. fold wi. rewrite Hlen, Etot in Hx.
+    set (x1 := firstn (length (concat L)) x). set (xr := skipn (length (concat L)) x).
+    assert (Ex : x = x1 ++ (firstn (length wi) xr ++ skipn (length wi) xr)).
+    { unfold x1, xr. rewrite firstn_skipn, firstn_skipn. reflexivity. }
+    assert (H1 : length x1 = length (pweights PL L)).
+    { unfold x1. rewrite firstn_length, pweights_len by lia. lia. }
+    assert (H2 : length (firstn (length wi) xr) = length wi).
+    { unfold xr. rewrite firstn_length, skipn_length. lia. }
+    rewrite Eoff. fold xr. rewrite Ew. clearbody x1 xr. rewrite Ex.
+    assert (Hz : length (pweights PL L) = length (concat L)) by (apply pweights_len; lia).
+    rewrite (cinner_app OK) by (rewrite ?zeros_len; lia).
+    rewrite (cinner_app OK) by (rewrite ?zeros_len; lia).
+    rewrite !(cinner_zeros_r OK). ring.
+Qed.
+Lemma leaf_ok_projadj (ws : list vec) (pw : vec) i : (i < length ws)%nat -> length pw = length ws ->
+  nth i pw nzero = none_ -> vconj (pweights pw ws) = pweights pw ws -> vconj (nth i ws []) = nth i ws [] ->
+  leaf_ok (LProjAdj ws pw i).
+Proof.
+  intros Hi Hl Hp Hr1 Hr2. split; [|split; reflexivity]. cbn [leaf_dom leaf_ran leaf_adjoint].
+  destruct (leaf_ok_proj ws pw i Hi Hl Hp) as (Hq & _). cbn [leaf_dom leaf_ran leaf_adjoint] in Hq.
+  apply adj_pair_sym; assumption.
+Qed.
 End Leaf.
